@@ -4,6 +4,7 @@ import (
 	"bytes"
 	"encoding/json"
 	"fmt"
+	"regexp"
 	"testing"
 
 	"pgregory.net/rapid"
@@ -27,6 +28,7 @@ type streamCase struct {
 	SEN    bool // input is SEN (only SEN front-ends compared)
 	SENTok bool // SEN input stays inside sen.md (tokenizer compared too)
 	Padded bool
+	feat   map[string]any
 }
 
 func (c *streamCase) render() any {
@@ -44,6 +46,62 @@ func (c *streamCase) render() any {
 }
 
 var bom = []byte{0xEF, 0xBB, 0xBF}
+
+var maxIntBoundary = regexp.MustCompile(`(^|[^0-9.eE+\-])922337203685477580[0-7]([^0-9]|$)`)
+
+// features are structural attributes of the input that known-finding signatures refer to.
+func (c *streamCase) features() map[string]any {
+	if c.feat != nil {
+		return c.feat
+	}
+	f := map[string]any{}
+	// a positive integer part 9223372036854775800..9223372036854775807 (pinned by the repo's own tests
+	// to parse as json.Number from a whole buffer and as int64 byte by byte)
+	f["maxint_boundary_literal"] = maxIntBoundary.Match(c.Input)
+	if c.SEN {
+		depth, inStr, esc := 0, byte(0), false
+		topComment, topPlus := false, false
+		var prev byte
+		for _, b := range c.Input {
+			if inStr != 0 {
+				switch {
+				case esc:
+					esc = false
+				case b == '\\':
+					esc = true
+				case b == inStr:
+					inStr = 0
+				}
+				continue
+			}
+			switch b {
+			case '"', '\'':
+				inStr = b
+			case '[', '{', '(':
+				depth++
+			case ']', '}', ')':
+				if depth > 0 {
+					depth--
+				}
+			case '/':
+				if depth == 0 {
+					topComment = true
+				}
+			case '+':
+				if depth == 0 && prev != 'e' && prev != 'E' {
+					topPlus = true
+				}
+			}
+			if b != ' ' && b != '\t' && b != '\n' && b != '\r' {
+				prev = b
+			}
+		}
+		f["sen_toplevel_comment"] = topComment
+		f["sen_toplevel_plus"] = topPlus
+	}
+	c.feat = f
+	return f
+}
 
 func drawStreamCase(t *rapid.T, forC09 bool) *streamCase {
 	c := &streamCase{}
@@ -203,6 +261,9 @@ func agree(cx *sim.Ctx, c *streamCase, oracle string, base, o *outcome, level in
 		return fmt.Sprintf("C03/%s/%s~%s/%s", oracle, o.Name, base.Name, what)
 	}
 	attrs := map[string]any{"family": c.Family, "mode": c.Mode, "a": o.Name, "b": base.Name}
+	for k, v := range c.features() {
+		attrs[k] = v
+	}
 	if o.Hung || o.Panic != nil {
 		cx.Fail(cls(o.class()), fmt.Sprintf("%s: %s", o.Name, o), attrs)
 		return
@@ -213,6 +274,14 @@ func agree(cx *sim.Ctx, c *streamCase, oracle string, base, o *outcome, level in
 	}
 	if o.class() != base.class() {
 		cx.Fail(cls("outcome"), fmt.Sprintf("%s -> %s ; %s -> %s", o.Name, o, base.Name, base), attrs)
+		return
+	}
+	if o.class() == "error" {
+		// "an error in every case": which documents were handed over before the failure is not
+		// part of the agreement the property states (see DESIGN §6, false alarms corrected)
+		if len(o.Docs) != len(base.Docs) {
+			sim.Probe("both_error_delivered_prefix_differs")
+		}
 		return
 	}
 	if len(o.Docs) != len(base.Docs) {
